@@ -1,0 +1,34 @@
+use crate::{
+    registry::Registry,
+    verif::Dump,
+    world::World,
+};
+
+impl<R, Resources> World<R, Resources>
+where
+    R: Registry,
+{
+    /// Returns a read-only copy of the internal bookkeeping of this world.
+    #[must_use]
+    pub fn verif_dump(&self) -> Dump {
+        let mut dump = Dump {
+            len: self.len,
+            ..Dump::default()
+        };
+        for slot in &self.entity_allocator.slots {
+            dump.slots.push((
+                slot.generation,
+                slot.location.map(|location| {
+                    (
+                        // SAFETY: Only the address is taken; the slice is never read.
+                        unsafe { location.identifier.as_slice() }.as_ptr() as usize,
+                        location.index,
+                    )
+                }),
+            ));
+        }
+        dump.free.extend(self.entity_allocator.free.iter().copied());
+        self.archetypes.verif_dump(&mut dump);
+        dump
+    }
+}
